@@ -169,7 +169,9 @@ ClosedRe(i, completed) ==
 \* ReportMdnsEntries(vis): every visible SKI that is not connected and is trusted or queued gets one dial attempt; the
 \* harness' listeners refuse it, so the attempt ends in checkAutoReannounce
 Eligible(k) == svc[k].reg = 0 /\ (svc[k].trusted \/ svc[k].dstate = "Queued")
-ReportMdns(vis) ==
+\* ra: what the visible services announce about THEIR auto accept (TXT register=true) - information for the user interface,
+\* which gives nobody trust on this side
+ReportMdns(vis, ra) ==
     /\ Can /\ Bump /\ started
     /\ LET dial == IF shut /\ ~Has("dialAfterShutdown") THEN {} ELSE {k \in vis : Eligible(k)}
            s2   == [k \in Skis |-> IF k \in dial THEN [svc[k] EXCEPT !.cnt = IF @ >= 1 THEN 2 ELSE @ + 1] ELSE svc[k]]
@@ -197,11 +199,11 @@ Act == \/ (Start /\ L([a |-> "Start"])) \/ (Shutdown /\ L([a |-> "Shutdown"]))
              \/ (Setup(i) /\ L([a |-> "Setup", i |-> i]))
              \/ \E c \in BOOLEAN : (Closed(i, c) /\ L([a |-> "Closed", i |-> i, c |-> c]))
              \/ \E c \in BOOLEAN : (ClosedRe(i, c) /\ L([a |-> "ClosedRe", i |-> i, c |-> c, k |-> conns[i].ski, s |-> "ServerWait"]))
-       \/ \E vis \in SUBSET Skis : (ReportMdns(vis) /\ L([a |-> "ReportMdns", vis |-> vis]))
+       \/ \E vis \in SUBSET Skis, ra \in BOOLEAN : (ReportMdns(vis, ra) /\ L([a |-> "ReportMdns", vis |-> vis, ra |-> ra]))
 
 \* projection the harness compares after every step
 Proj == [ started |-> started', shut |-> shut', auto |-> auto',
-          svc |-> [k \in Skis |-> [trusted |-> svc'[k].trusted, dstate |-> svc'[k].dstate, derr |-> svc'[k].derr,
+          svc |-> [k \in Skis |-> [trusted |-> svc'[k].trusted, paired |-> svc'[k].trusted, dstate |-> svc'[k].dstate, derr |-> svc'[k].derr,
                                    reg |-> svc'[k].reg, cnt |-> svc'[k].cnt]],
           out |-> out' ]
 Next == /\ Act
